@@ -8,6 +8,7 @@ package core
 
 import (
 	"context"
+	"encoding/hex"
 	"fmt"
 	"strings"
 	"testing"
@@ -38,6 +39,33 @@ func c10Act(s *Sys, what string) ([][]byte, error) {
 		if !OK(resp, err) {
 			return nil, fmt.Errorf("%s", ErrText(resp, err))
 		}
+	case "rotate-root-shares":
+		// the share-based root rotation API, to a configuration with a smaller
+		// threshold than the old one (3,3) -> (5,2)
+		resp, err := s.Req(s.Root, logical.UpdateOperation, "sys/rotate/root/init", map[string]interface{}{"secret_shares": 5, "secret_threshold": 2})
+		if !OK(resp, err) || resp == nil {
+			return nil, fmt.Errorf("rotate init: %s", ErrText(resp, err))
+		}
+		nonce, _ := resp.Data["nonce"].(string)
+		for _, k := range s.Keys {
+			resp, err := s.Req(s.Root, logical.UpdateOperation, "sys/rotate/root/update", map[string]interface{}{"key": hex.EncodeToString(k), "nonce": nonce})
+			if !OK(resp, err) {
+				_, _ = s.Req(s.Root, logical.DeleteOperation, "sys/rotate/root/init", nil)
+				return nil, fmt.Errorf("rotate update: %s", ErrText(resp, err))
+			}
+			if resp != nil {
+				if c, _ := resp.Data["complete"].(bool); c {
+					var out [][]byte
+					ks, _ := resp.Data["keys"].([]string)
+					for _, k := range ks {
+						b, _ := hex.DecodeString(k)
+						out = append(out, b)
+					}
+					return out, nil
+				}
+			}
+		}
+		return nil, fmt.Errorf("root rotation did not complete")
 	case "rekey":
 		conf := &vault.SealConfig{Type: "shamir", SecretShares: 5, SecretThreshold: 3}
 		if herr := s.Core.RekeyInit(conf, false); herr != nil {
@@ -74,7 +102,7 @@ func TestVerifC10Core(t *testing.T) {
 	}
 	img := c10Image(t)
 	count := 0
-	for _, what := range []string{"rotate", "rotate-root", "rekey"} {
+	for _, what := range []string{"rotate", "rotate-root", "rekey", "rotate-root-shares"} {
 		s0 := Boot(t, img)
 		s0.Phys.ResetMutations()
 		newShares, err := c10Act(s0, what)
@@ -86,7 +114,7 @@ func TestVerifC10Core(t *testing.T) {
 		snap0 := s0.Phys.Snapshot()
 		s0.Close()
 		valid := img.Keys
-		if what == "rekey" {
+		if len(newShares) > 0 {
 			valid = newShares
 		}
 		if sx, err := BootSealed(t, snap0, img); err == nil {
@@ -180,7 +208,7 @@ func TestVerifC10Core(t *testing.T) {
 			s.Close()
 			holds := img.Keys
 			held := "old shares"
-			if what == "rekey" && aerr == nil && len(shares) > 0 {
+			if aerr == nil && len(shares) > 0 {
 				holds, held = shares, "new shares"
 			}
 			sx, err := BootSealed(t, snap, img)
